@@ -1089,6 +1089,7 @@ def run(ctx):
     from . import C14
 
     imported(ctx, C14.rule_K6)
+    imported(ctx, C14.rule_K1)  # a cache on the MAP pipeline keyed by Tree equality (clades only) forgets labels and values
     # the CCFs a user reads are those of the result table: copied unchanged from the MAP dictionaries (C12.N3 / N4)
     imported(ctx, C12.rule_N3_N4)
 
